@@ -106,8 +106,9 @@ AllowedKeys(T) ==
 
 DefaultOf(f) == FDflt(f)[2]
 
-FromDict(T, cx, j) ==
-  LET fs   == DcFields(T)
+FromDict(T, cx, j0) ==
+  LET j    == IF "pre_deser" \in HooksOf(T) THEN MapN(j0, LAMBDA n : n + 2) ELSE j0
+      fs   == DcFields(T)
       ifs  == InitFields(T)
       name == DcName(T)
       ncx  == [NestCx(T, cx) EXCEPT !.levels = ClassLevels(T, cx)]
@@ -130,7 +131,8 @@ FromDict(T, cx, j) ==
         rs == [i \in DOMAIN fs |-> fres(fs[i])]
     IN  IF GetOpt(DcCfg(T), "forbid_extra_keys", FALSE) /\ extra # {}
         THEN Err(<<"Extra", extra, name>>)
-        ELSE LET c == Combine(rs) IN IF IsOk(c) THEN Ok(<<"obj", name, c[2]>>) ELSE c
+        ELSE LET c == Combine(rs) IN
+             IF IsOk(c) THEN Ok(IF "post_deser" \in HooksOf(T) THEN MulObj(<<"obj", name, c[2]>>, 3) ELSE <<"obj", name, c[2]>>) ELSE c
 
 \* int(int), str(str), bool(bool), float(float) are the identity; everything else is the stdlib table
 Leafy(kind, j) == IF kind = j[1] /\ kind \in {"int", "str", "bool", "float"} THEN Ok(j) ELSE Ctor(kind, j)
